@@ -2,6 +2,7 @@ package props
 
 import (
 	"fmt"
+	"go/token"
 	"sort"
 	"strings"
 
@@ -65,6 +66,7 @@ func checkC18(c *fw.Ctx) {
 	checkF4(c)
 	checkF5(c)
 	checkF6(c)
+	checkF7(c)
 }
 
 func checkF2(c *fw.Ctx) {
@@ -422,14 +424,14 @@ func checkF6(c *fw.Ctx) {
 	}
 	// function -> number of index/slice sites on strings/byte slices, with the fact each relies on
 	want := map[string]just{
-		"gmsl.CompactJSON":          {4, "input[i] under the loop guards i < len(input) (2 sites); input[i] after '-' and after '\\\\': in valid JSON neither is the last byte (F4 establishes validity)"},
-		"gmsl.compactUnicodeEscape": {6, "guarded by len(input)-index < 4 tests (2 slices); ESCAPES[c] with c < 0x20 < 32; HEX[c&0xF]; input[index], input[index+1] after a high surrogate: valid JSON strings end with '\"' so at least one byte follows... relies on validity"},
-		"gmsl.readHexDigits":        {0, "binary.BigEndian.Uint32 only"},
-		"gmsl.isValidUserID":        {1, "userID[0]: callers pass sender.String() of a parsed UserID (length >= 4)"},
-		"(*gmsl.eventV3).RoomID":    {1, "EventID()[1:]: event IDs start with '$' (reference hash format)"},
-		"(*gmsl.eventV3).AuthEventIDs": {1, "RoomID[1:]: checkRoomID guarantees the '!' prefix for non-create events (F3)"},
-		"gmsl.SplitID":              {2, "id[0] after len(id) == 0 test; parts[0][1:] after the sigil test"},
-		"gmsl.checkID":              {2, "id[0] after domainFromID succeeded (id contains ':' hence is non-empty)"},
+		"gmsl.CompactJSON":                 {4, "input[i] under the loop guards i < len(input) (2 sites); input[i] after '-' and after '\\\\': in valid JSON neither is the last byte (F4 establishes validity)"},
+		"gmsl.compactUnicodeEscape":        {6, "guarded by len(input)-index < 4 tests (2 slices); ESCAPES[c] with c < 0x20 < 32; HEX[c&0xF]; input[index], input[index+1] after a high surrogate: valid JSON strings end with '\"' so at least one byte follows... relies on validity"},
+		"gmsl.readHexDigits":               {0, "binary.BigEndian.Uint32 only"},
+		"gmsl.isValidUserID":               {1, "userID[0]: callers pass sender.String() of a parsed UserID (length >= 4)"},
+		"(*gmsl.eventV3).RoomID":           {1, "EventID()[1:]: event IDs start with '$' (reference hash format)"},
+		"(*gmsl.eventV3).AuthEventIDs":     {1, "RoomID[1:]: checkRoomID guarantees the '!' prefix for non-create events (F3)"},
+		"gmsl.SplitID":                     {2, "id[0] after len(id) == 0 test; parts[0][1:] after the sigil test"},
+		"gmsl.checkID":                     {2, "id[0] after domainFromID succeeded (id contains ':' hence is non-empty)"},
 		"gmsl/spec.parseAndValidateUserID": {2, "id[0], id[1:] after the length >= 4 test"},
 		"gmsl/spec.parseAndValidateRoomID": {4, "id[0], id[1:] (three uses) after the length >= 4 test"},
 	}
@@ -460,7 +462,6 @@ func checkF6(c *fw.Ctx) {
 		c.Count("raw_byte_index_sites", len(sites))
 	}
 }
-
 
 // validatorImpliesNewRoomID: every success return of the validator lies behind spec.NewRoomID(id) == nil,
 // or (v12 form) behind the create-event predicate, for which RoomID() does not parse the field.
@@ -506,4 +507,82 @@ func validatorImpliesNewRoomID(c *fw.Ctx, v *ssa.Function) bool {
 		}
 	}
 	return found
+}
+
+// checkF7: ed25519.Verify panics ("bad public key length") on a public key that is not 32
+// bytes long. The keys of a remote server's key response are verified in checkVerifyKeys:
+// VerifyJSON (which hands the key to ed25519.Verify unchanged) must be reached there only
+// after the key's length was tested.
+func checkF7(c *fw.Ctx) {
+	rule := "F7 key-length"
+	// VerifyJSON passes its publicKey parameter to ed25519.Verify without a length test of its own
+	vj := mustFunc(c, rule, "VerifyJSON")
+	fn := mustFunc(c, rule, "checkVerifyKeys")
+	if vj == nil || fn == nil {
+		return
+	}
+	selfGuard := false
+	for _, call := range fw.CallsTo(vj, false, fw.NameIs("golang.org/x/crypto/ed25519.Verify", "crypto/ed25519.Verify")) {
+		for _, f := range fw.DomConds(call.Block()) {
+			if strings.Contains(f.Sig, "builtin.len(param:publicKey)") && strings.Contains(f.Sig, "32") {
+				selfGuard = true
+			}
+		}
+	}
+	if selfGuard {
+		c.Ok(rule, "VerifyJSON tests the key length itself", c.P.Pos(vj.Pos()), "")
+		return
+	}
+	n := 0
+	for _, call := range fw.CallsTo(fn, true, fw.NameIs("gmsl.VerifyJSON", "golang.org/x/crypto/ed25519.Verify", "crypto/ed25519.Verify")) {
+		n++
+		keyArg := call.Common().Args[2]
+		if strings.HasSuffix(fw.CalleeName(call), "ed25519.Verify") {
+			keyArg = call.Common().Args[0]
+		}
+		key := fw.Sig(keyArg)
+		isLenTest := func(v ssa.Value) bool {
+			bo, isB := v.(*ssa.BinOp)
+			if !isB || bo.Op != token.EQL {
+				return false
+			}
+			if n, isC := fw.ConstInt(bo.Y); !isC || n != 32 {
+				return false
+			}
+			cl, _ := fw.CallOf(bo.X)
+			return cl != nil && fw.CalleeName(cl) == "builtin.len" && fw.Sig(cl.Common().Args[0]) == key
+		}
+		ok := false
+		for _, f := range fw.DomConds(call.Block()) {
+			if !f.Taken {
+				continue
+			}
+			cv, neg := fw.BoolCond(f.If.Cond)
+			if neg {
+				continue
+			}
+			if isLenTest(cv) {
+				ok = true
+			}
+			// through a recorded flag: `entry.ValidX = len(key) == 32; if entry.ValidX { ... }`
+			if u, isU := cv.(*ssa.UnOp); isU {
+				if fa, isFA := u.X.(*ssa.FieldAddr); isFA {
+					if st := derefStructOf(fa.X.Type()); st != nil {
+						stores := fw.FieldStores(fn, "", st.Field(fa.Field).Name())
+						all := len(stores) > 0
+						for _, s2 := range stores {
+							if !isLenTest(s2.Val) {
+								all = false
+							}
+						}
+						if all {
+							ok = true
+						}
+					}
+				}
+			}
+		}
+		c.Check(ok, rule, "checkVerifyKeys verifies a published key only after testing that it is 32 bytes long", c.P.Pos(call.Pos()), "", "the signature check of a remote server's published key is reached without the guard len(key) == 32: ed25519.Verify panics on a key of any other length, so a crafted key response crashes CheckKeys")
+	}
+	c.Min(rule+" key verification sites in checkVerifyKeys", n, 1)
 }
